@@ -23,8 +23,6 @@ theorem intBytes_ne_nil (i : Int) : intBytes i ≠ [] := by
   · simp
   · exact (natBytes_spec _).2.1
 
-def intsB (l : List Int) : Bytes := joinSep 44 (l.map intBytes)
-
 theorem intsTok_joinSep (ps : List Bytes) (h : ∀ p ∈ ps, IntTok p) : IntsTok (joinSep 44 ps) := by
   induction ps with
   | nil => intro b hb; cases hb
@@ -90,22 +88,6 @@ theorem intList_intsB (l : List Int) (hne : l ≠ []) : Taste.intList (intsB l) 
 end Py
 
 namespace Py
-
-def prefixToks : List Bytes :=
-  [[70,65,66], [40,40,56,44], [40,54,52], [49,49], [53,50], [48], [49], [49,50], [48],
-   [49,48,50,51,41,41,44,40,56,44], [40,56], [55], [54], [53], [52], [51], [50]]
-def lastConst : Bytes := [49,41,41,41]
-
-def zerosB (d : Nat) : Bytes := joinSep 44 (List.replicate d [48])
-
-def tokStart (lo : List Int) : Bytes := lastConst ++ [40, 40] ++ intsB lo ++ [41]
-def tokStop (hi : List Int) : Bytes := [40] ++ intsB hi ++ [41]
-def tokType (d : Nat) : Bytes := [40] ++ zerosB d ++ [41, 41]
-
-/-- `header_from_indices(lo, hi, nf)` as bytes -/
-def canonB (lo hi : List Int) (nf : Nat) : Bytes :=
-  sepJoin (prefixToks.map (·, 32) ++
-    [(tokStart lo, 32), (tokStop hi, 32), (tokType hi.length, 32), (natBytes nf, 10)])
 
 theorem intsTok_zerosB (d : Nat) : IntsTok (zerosB d) := by
   apply intsTok_joinSep
